@@ -256,8 +256,12 @@ ReplaceInputRaw(s, n, i, v) ==
       s2 == IF old # 0 THEN [s1 EXCEPT !.vUses[old] = @ \ {UC(n, i)}] ELSE s1
   IN IF v # 0 THEN [s2 EXCEPT !.vUses[v] = @ \cup {UC(n, i)}] ELSE s2
 
+\* NotAValue: an argument that is not a Value at all (the harness passes an int) where a value or None is expected
+NotAValue == -1
 ReplaceInput(s, n, i, v) ==
-  IF i < 0 \/ i >= Len(s.nIn[n]) THEN Rej(s, "index") ELSE Ok(ReplaceInputRaw(s, n, i, v))
+  IF i < 0 \/ i >= Len(s.nIn[n]) THEN Rej(s, "index")
+  ELSE IF v = NotAValue THEN Rej(s, "type")
+  ELSE Ok(ReplaceInputRaw(s, n, i, v))
 
 DetachInputs(s, n, from) ==   \* inputs from 0-based index `from` on become None
   FoldLeft(LAMBDA acc, i : ReplaceInputRaw(acc, n, i, 0), s, [x \in 1..(Len(s.nIn[n]) - from) |-> from + x - 1])
@@ -344,7 +348,8 @@ GRemove(s, g, ns, safe) ==
 NewNode(s, ins, outs, k, g) ==
   LET n == Len(s.nIn) + 1
       supplied == outs # <<>>
-  IN IF supplied /\ \E x \in DOMAIN outs : s.vProd[outs[x]] # 0 THEN Rej(s, "out-has-producer")
+  IN IF \E x \in DOMAIN ins : ins[x] = NotAValue THEN Rej(s, "type")      \* (nothing registered, nothing appended)
+     ELSE IF supplied /\ \E x \in DOMAIN outs : s.vProd[outs[x]] # 0 THEN Rej(s, "out-has-producer")
      ELSE IF supplied /\ \E x \in DOMAIN outs : s.vIsIn[outs[x]] \/ s.vIsInit[outs[x]] THEN Rej(s, "out-is-input")
      ELSE IF supplied /\ \E x, y \in DOMAIN outs : x < y /\ outs[x] = outs[y] THEN Rej(s, "out-duplicate")
      ELSE
@@ -365,6 +370,7 @@ NewNode(s, ins, outs, k, g) ==
 \* Value.replace_all_uses_with(w, replace_graph_outputs=flag)
 ReplaceAllUses(s, v, w, flag) ==
   IF s.vIsOut[v] /\ ~flag THEN Rej(s, "is-output")
+  ELSE IF w = NotAValue THEN (IF s.vUses[v] = {} /\ ~s.vIsOut[v] THEN Ok(s) ELSE Rej(s, "type"))
   ELSE IF s.vIsOut[v] /\ ~CanSetIO(s, "out", s.vOwner[v], w) THEN Rej(s, "owner")
   ELSE
     LET g  == s.vOwner[v]
